@@ -2,6 +2,7 @@ import DcVerif.Lemmas.Ring
 import DcVerif.Lemmas.RingMulti
 import DcVerif.Lemmas.RingPay
 import DcVerif.Lemmas.RingMultiSafe
+import DcVerif.Lemmas.RingMultiPay
 /-!
 # C04 — every published event is delivered exactly once, in order (single-producer pipelines)
 
@@ -27,6 +28,12 @@ consumers start at `cursor + 1 = 1`, so sequence 0 is written but never delivere
                               stage `k` is handed for sequence `i` is the value written for `i`, transformed by the mutable
                               handlers of the stages below `k`, in stage order — and nothing else, although slots are reused
                               every `n` sequences. Hypothesis: a stage with a mutable handler has no other handler (F9).
+* `c04_multi_payload_intact` — the same for pipelines fed by the **multi-producer** sequencer (slot layer
+                              `Model/RingMultiPay.lean`; ring sizes `2^e`, any number of writer threads, every schedule):
+                              what a handler of stage `k` is handed for sequence `q` is the value of the one and only slot
+                              write of `q`, made by its claimant, transformed by the mutable handlers of the stages below `k`;
+                              with `c04_multi_written_once`, `c04_multi_written_value_is_next_item`, `c04_multi_seen_is_log`,
+                              `c04_multi_payload_layer_is_ghost`.
 -/
 namespace C04
 open Ring
@@ -256,5 +263,128 @@ example : MReachableWF demoMultiHandle :=
   ⟨4, 1, fun _ => 1, false, [[1], [1]], _, by decide, fun _ _ => Nat.one_pos, by decide, rfl⟩
 
 end Multi
+
+/-! ## payload integrity, multi-producer pipelines
+
+Slot layer `Model/RingMultiPay.lean` over the multi-producer model: a writer's slot write of `w` stores the next item of *that
+writer's* item stream (`c.pay writer m w`, `m` = number of events the writer wrote before) into slot `w mod n`; a handler call
+reads slot `i mod n`, records `(i, value)` in `seen` and, if mutable, stores its transformation back. The layer also records
+as ghost state the log `wlog` of all slot writes `(sequence, writer, value)`. For every ring size `2^e`, every topology whose
+mutable handlers are alone in their stage (F9), any number of writer threads, all batch lists and **every schedule**
+(`Lemmas/RingMultiPay.lean`): whatever a handler of stage `k` is handed for sequence `q` is the value of the one and only slot
+write of `q` — made by the writer holding the claim that contains `q` — transformed by the mutable handlers of the stages below
+`k` in stage order; although the writers write concurrently and out of sequence order and slots are reused every `n` sequences. -/
+section MultiPayload
+open RingMulti RingPay RingMultiPay
+
+/-- a state of the multi-producer payload layer reachable in a well-formed pipeline with a ring of `2^e` slots whose mutable
+handlers are alone in their stage: any number of writer threads, any batch lists, **any schedule** -/
+def MPayReachable (c : MPCfg) (s : MPaySt) : Prop :=
+  ∃ (e K : Nat) (h : Nat → Nat) (blocking : Bool) (batches : List (List Nat)) (sched : List MTid),
+    0 < K ∧ (∀ k, k < K → 0 < h k) ∧ (∀ l, l ∈ batches → ∀ b, b ∈ l → 1 ≤ b) ∧
+    (∀ k j, k < K → j < h k → c.mutH k j = true → h k = 1) ∧
+    s = runMPay c (mkMPay (2 ^ e) K h blocking batches) sched
+
+theorem mpayReachable_good {c : MPCfg} {s : MPaySt} (hr : MPayReachable c s) : MPayGood c s := by
+  obtain ⟨e, K, h, bl, bs, sched, hK, hh, hb, hT, rfl⟩ := hr
+  exact mpaygood_run c _ sched (mpaygood_init c e K h bl bs hK hh hb hT)
+
+/-- the slot layer does not change the system: its projection is a run of `Model/RingMulti.lean`, so every multi-producer
+theorem (delivery order, release safety, no overwrite, C13, C14) applies to it -/
+theorem c04_multi_payload_layer_is_ghost (c : MPCfg) (s : MPaySt) (sched : List MTid) :
+    (runMPay c s sched).x = runM s.x sched := by
+  unfold runMPay runM
+  induction sched generalizing s with
+  | nil => rfl
+  | cons t ts ih => simp only [List.foldl_cons]; rw [ih, stepMPay_x]
+
+/-- … in particular the system state under a reachable layer state is `MReachableWF` with a ring size `2^e` -/
+theorem mpayReachable_system {c : MPCfg} {s : MPaySt} (hr : MPayReachable c s) :
+    MReachableWF s.x ∧ ∃ e, s.x.s.n = 2 ^ e := by
+  obtain ⟨e, K, h, bl, bs, sched, hK, hh, hb, _, rfl⟩ := hr
+  rw [c04_multi_payload_layer_is_ghost]
+  exact ⟨⟨2 ^ e, K, h, bl, bs, sched, hK, hh, hb, rfl⟩, e, by rw [runM_n]; rfl⟩
+
+/-- **payload integrity, multi producer**: every `(sequence, payload)` pair handed to handler `(k,j)` carries the value `v`
+written for that sequence — there is exactly one slot write of the sequence, by writer `i`, and `i` is its claimant (holds a
+claim `[lo, hi]` containing it, one of the successful compare-and-swaps on the high watermark) — transformed by exactly the
+mutable handlers of the earlier stages -/
+theorem c04_multi_payload_intact {c : MPCfg} {s : MPaySt} (hr : MPayReachable c s) (k j : Nat)
+    (hk : k < s.x.s.K) (hj : j < s.x.s.h k) (e : Nat × Nat) (he : e ∈ s.seen k j) :
+    ∃ i v, (e.1, i, v) ∈ s.wlog ∧
+      (∀ i' v', (e.1, i', v') ∈ s.wlog → i' = i ∧ v' = v) ∧
+      (i < s.x.P ∧ ∃ cl, cl ∈ (s.x.wr i).claims ∧ cl ∈ s.x.allClaims ∧ cl.1 ≤ e.1 ∧ e.1 ≤ cl.2.1) ∧
+      e.2 = expectBelow c.hc k v := by
+  have hg := mpayReachable_good hr
+  obtain ⟨h1, h2, h3⟩ := hg.pay.saw k j hk hj e he
+  obtain ⟨_, ⟨i, hi⟩, _⟩ := published_below_cursor s.x hg.safe.1 e.1 h1 h2
+  have hmem : ∀ i' v', (e.1, i', v') ∈ s.wlog → (e.1, i') ∈ s.x.written ∧ s.val e.1 = v' := by
+    intro i' v' hm
+    exact ⟨by rw [← hg.log.proj]; exact List.mem_map.2 ⟨_, hm, rfl⟩, hg.log.valOk _ hm⟩
+  obtain ⟨⟨q, i0, v0⟩, hm, hq⟩ : ∃ en, en ∈ s.wlog ∧ (en.1, en.2.1) = (e.1, i) := by
+    rw [← hg.log.proj] at hi; exact List.mem_map.1 hi
+  simp only [Prod.mk.injEq] at hq
+  obtain ⟨rfl, rfl⟩ := hq
+  obtain ⟨hiP, cl, hcl, hb1, hb2⟩ := hg.safe.2.wrote _ _ hi
+  refine ⟨i0, v0, hm, ?_, ⟨hiP, cl, hcl, hg.safe.2.globl i0 hiP cl hcl, hb1, hb2⟩, ?_⟩
+  · intro i' v' hm'
+    obtain ⟨a1, a2⟩ := hmem i' v' hm'
+    exact ⟨nodup_fst_unique _ hg.once.nodup _ _ _ a1 hi, by rw [← a2, (hmem i0 v0 hm).2]⟩
+  · rw [h3, (hmem i0 v0 hm).2]
+
+/-- the same against the layer's ghost map `val` (sequence ↦ value written for it) -/
+theorem c04_multi_payload_intact_val {c : MPCfg} {s : MPaySt} (hr : MPayReachable c s) (k j : Nat)
+    (hk : k < s.x.s.K) (hj : j < s.x.s.h k) (e : Nat × Nat) (he : e ∈ s.seen k j) :
+    e.2 = expectBelow c.hc k (s.val e.1) :=
+  ((mpayReachable_good hr).pay.saw k j hk hj e he).2.2
+
+/-- every sequence is written to its slot at most once; the log of slot writes is the system's ghost list `written`
+(`c14_multi_written_by_claimant` etc. speak about the same writes); `val` is the value of that one write -/
+theorem c04_multi_written_once {c : MPCfg} {s : MPaySt} (hr : MPayReachable c s) :
+    (s.wlog.map (·.1)).Nodup ∧ s.wlog.map (fun e => (e.1, e.2.1)) = s.x.written ∧
+    ∀ e, e ∈ s.wlog → s.val e.1 = e.2.2 := by
+  have hg := mpayReachable_good hr
+  refine ⟨?_, hg.log.proj, hg.log.valOk⟩
+  have : s.wlog.map (·.1) = s.x.written.map (·.1) := by rw [← hg.log.proj, List.map_map]; rfl
+  rw [this]; exact hg.once.nodup
+
+/-- where the written value comes from: a slot write by writer `i` stores `pay i m q`, `m` = number of slot writes writer `i`
+made before — the next item of the writer's own stream, whatever the other writers do in between -/
+theorem c04_multi_written_value_is_next_item {c : MPCfg} {s : MPaySt} (hr : MPayReachable c s)
+    (pre post : List (Nat × Nat × Nat)) (q i v : Nat) (h : s.wlog = pre ++ (q, i, v) :: post) :
+    v = c.pay i (pre.countP (fun e => e.2.1 == i)) q :=
+  (mpayReachable_good hr).log.src pre (q, i, v) post h
+
+/-- the sequences of the `(sequence, payload)` pairs are exactly the delivery log of the handler -/
+theorem c04_multi_seen_is_log {c : MPCfg} {s : MPaySt} (hr : MPayReachable c s) (k j : Nat) :
+    (s.seen k j).map (·.1) = (s.x.s.cons k j).log :=
+  (mpayReachable_good hr).seen k j
+
+/-! non-vacuity: ring of 4, stage 0 one mutable handler (×3), stage 1 one immutable handler; writer 0 writes three events,
+writer 1 two. The writes interleave out of sequence order (2 before 1, 5 before 4), publication is out of order (2 before 1),
+and the ring wraps (5 goes to the slot of 1, 4 to the slot of the never-used sequence 0). -/
+def demoMCfg : MPCfg := { pay := fun i m _ => 1000 * (i + 1) + m, mutH := fun k _ => k == 0, tf := fun _ _ v => 3 * v }
+def demoMSched : List MTid :=
+  let W (i n : Nat) := List.replicate n (MTid.writer i)
+  let H (k n : Nat) := List.replicate n (MTid.cons k 0)
+  W 0 6 ++ W 1 6 ++ W 1 1 ++ W 0 1 ++ W 1 7 ++ W 0 14 ++ W 0 8 ++ W 0 14 ++ H 0 12 ++ H 1 12 ++
+  W 1 5 ++ W 0 9 ++ W 0 1 ++ W 1 1 ++ W 1 12 ++ W 0 12 ++ H 0 12 ++ H 1 12
+def demoMPay : MPaySt := runMPay demoMCfg (mkMPay 4 2 (fun _ => 1) false [[1, 1, 1], [1, 1]]) demoMSched
+
+example : demoMPay.wlog = [(2, 1, 2000), (1, 0, 1000), (3, 0, 1001), (5, 0, 1002), (4, 1, 2001)] ∧
+    demoMPay.seen 0 0 = [(1, 1000), (2, 2000), (3, 1001), (4, 2001), (5, 1002)] ∧
+    demoMPay.seen 1 0 = [(1, 3000), (2, 6000), (3, 3003), (4, 6003), (5, 3006)] := by decide +kernel
+
+theorem demoMPay_reachable : MPayReachable demoMCfg demoMPay :=
+  ⟨2, 2, fun _ => 1, false, [[1, 1, 1], [1, 1]], demoMSched, by decide, fun _ _ => Nat.one_pos, by decide,
+   fun _ _ _ _ _ => rfl, rfl⟩
+
+/-- the theorem applied to that state: what stage 1 was handed for sequence 5 -/
+example : ∃ i v, (5, i, v) ∈ demoMPay.wlog ∧ 3006 = expectBelow demoMCfg.hc 1 v := by
+  obtain ⟨i, v, h1, _, _, h4⟩ := c04_multi_payload_intact demoMPay_reachable 1 0 (by decide +kernel) (by decide +kernel)
+    (5, 3006) (by decide +kernel)
+  exact ⟨i, v, h1, h4⟩
+
+end MultiPayload
 
 end C04
